@@ -102,11 +102,15 @@ fn one_case(run: &Run, case: u64) {
         mode_cursor: (case as u32).wrapping_mul(13),
     };
     let mut spec = tree::gen_tree(&mut rng, &p, &mut st);
-    if run.tier == Tier::Thorough && case == 0 {
-        // one file above the default 20 MiB block size, backed up with default options
-        spec.insert("/big".into(), tree::Node::file(tree::gen_content(&mut rng, (21 << 20) + 5)));
+    if case == 0 {
+        // default options and incompressible files of several MiB (in the thorough tier one above
+        // the default 20 MiB block size): blocks whose stored form is longer than any buffer
+        let len = if run.tier == Tier::Thorough { (21 << 20) + 5 } else { (5 << 20) + 3 };
+        spec.insert("/big".into(), tree::Node::file(Rng::for_case(run.seed, 0, 101).bytes(len)));
+        spec.insert("/big2".into(), tree::Node::file(Rng::for_case(run.seed, 1, 101).bytes((3 << 20) + 1)));
+        run.count("cases_with_incompressible_files_of_several_mib", 1);
     }
-    let o = if run.tier == Tier::Thorough && case == 0 { Opts::DEFAULT } else { o };
+    let o = if case == 0 { Opts::DEFAULT } else { o };
     // scale and unusual names: every 40th case is a wide, deep tree (hundreds of entries in one
     // directory, > 100 blocks, 250-byte names, a chain of 30 nested directories)
     if case % 40 == 7 {
@@ -238,12 +242,12 @@ pub fn run(tier: Tier, replay: Option<Value>) -> i32 {
         super::alongside(&run, "the many-hunks case", || many_hunks(&run), || run.par_cases(n, super::threads(), |case| one_case(&run, case)));
     }
     run.finish(
-        "one tree of 10 040 files with one entry per index hunk (two index subdirectories), then seeded generated trees (depth<=4; names with leading dots, bytes below/above '/', multi-byte; file sizes at 0/1/cap±1/block±1/2·block/3·block+7; duplicate and prefix contents; modes cycling through 0..0o7777; mtimes from {-2^31..2^33}s x {0,1,5e8,999999999,random}ns on files, dirs and symlinks; dangling/absolute/.. symlinks; named owners; every 40th case additionally a wide and deep tree: 150-500 files and 40 subdirectories in one directory, names of 250 bytes, a chain of 30 nested directories) x option sets drawn from all 216 combinations; every fifth case runs on a 4-worker multi-thread runtime instead of the current-thread one; backup must be Ok with no error reported, restore into an empty directory must be Ok with no error and the lstat/readlink/read snapshot of the result must equal that of the source (bytes, kind, target, mtime ns incl. directories and root, mode&0o7777, uid/gid as root). Non-trivial = has a multi-block file, a combined block of >=2 files, a special mode bit, a pre-epoch or sub-second mtime, or a non-ASCII name; distinct by (tree signature, options).",
+        "one tree of 10 040 files with one entry per index hunk (two index subdirectories), then seeded generated trees (depth<=4; names with leading dots, bytes below/above '/', multi-byte; file sizes at 0/1/cap±1/block±1/2·block/3·block+7; duplicate and prefix contents; modes cycling through 0..0o7777; mtimes from {-2^31..2^33}s x {0,1,5e8,999999999,random}ns on files, dirs and symlinks; dangling/absolute/.. symlinks; named owners; every 40th case additionally a wide and deep tree: 150-500 files and 40 subdirectories in one directory, names of 250 bytes, a chain of 30 nested directories) x option sets drawn from all 216 combinations (case 0: default options with incompressible files of 3 and 5 MiB, 21 MiB in the thorough tier); every fifth case runs on a 4-worker multi-thread runtime instead of the current-thread one; backup must be Ok with no error reported, restore into an empty directory must be Ok with no error and the lstat/readlink/read snapshot of the result must equal that of the source (bytes, kind, target, mtime ns incl. directories and root, mode&0o7777, uid/gid as root). Non-trivial = has a multi-block file, a combined block of >=2 files, a special mode bit, a pre-epoch or sub-second mtime, or a non-ASCII name; distinct by (tree signature, options).",
         &[
             "expected values are the snapshot of what the file system actually holds (tmpfs /dev/shm)",
             "release profile, debug assertions off",
         ],
         None,
-        &[("restores_compared", 20), ("class_multi_block_file", 3), ("class_combined_block_2plus_files", 3), ("class_special_mode_bits", 3), ("restores_of_versions_with_more_than_10000_hunks", 2)],
+        &[("restores_compared", 20), ("class_multi_block_file", 3), ("class_combined_block_2plus_files", 3), ("class_special_mode_bits", 3), ("restores_of_versions_with_more_than_10000_hunks", 2), ("cases_with_incompressible_files_of_several_mib", 1)],
     )
 }
